@@ -128,6 +128,55 @@ func checkUUID(c *vm.Ctx, r *vm.Rand, i int) {
 	}
 }
 
+// checkUUIDConcurrent: a server derives offline UUIDs on every connection's goroutine; "for every name" holds there too.
+func checkUUIDConcurrent(c *vm.Ctx, r *vm.Rand, perG int) {
+	const G = 8
+	type bad struct {
+		name      string
+		got, want [16]byte
+		panicked  any
+	}
+	res := make(chan *bad, G)
+	seeds := make([]uint64, G)
+	for g := range seeds {
+		seeds[g] = r.Uint64()
+	}
+	for g := 0; g < G; g++ {
+		go func(g int) {
+			var first *bad
+			defer func() {
+				if p := recover(); p != nil && first == nil {
+					first = &bad{panicked: p}
+				}
+				res <- first
+			}()
+			lr := vm.NewRand(seeds[g])
+			for i := 0; i < perG; i++ {
+				name := fmt.Sprintf("g%d_%d_%s", g, i, genName(lr))
+				got := offline.NameToUUID(name)
+				if want := refUUID(name); got != want && first == nil {
+					first = &bad{name: name, got: got, want: want}
+				}
+			}
+		}(g)
+	}
+	ok := true
+	for g := 0; g < G; g++ {
+		if b := <-res; b != nil && ok {
+			ok = false
+			if b.panicked != nil {
+				c.Violation("uuid/panic-under-concurrent-calls", fmt.Sprint("NameToUUID panicked when called from several goroutines: ", b.panicked), nil)
+			} else {
+				c.Violation("uuid/differs-under-concurrent-calls", fmt.Sprintf("NameToUUID(%q) = %x when called from %d goroutines at once, Java's nameUUIDFromBytes gives %x", b.name, b.got, G, b.want), map[string]any{"name_hex": vm.Hex([]byte(b.name))})
+			}
+		}
+	}
+	c.EvalN(int64(G*perG), vm.HashStr("uuid-concurrent", fmt.Sprint(c.Shard)), true)
+	if ok {
+		c.Cover("uuid.concurrent-calls-ok")
+	}
+}
+
 func checkDigest(c *vm.Ctx, r *vm.Rand, i int, counts map[string]int) {
 	var serverID string
 	switch r.Intn(4) {
@@ -399,6 +448,7 @@ func run(c *vm.Ctx) {
 		c.EvalN(int64(n), vm.HashStr("uuid-bulk", fmt.Sprint(c.Shard)), true)
 	}
 	c.Cover("uuid.ok")
+	checkUUIDConcurrent(c, ur, c.Scale(20000, 400000))
 	dr := c.Rand("digest")
 	counts := map[string]int{}
 	nd := c.Scale(1000000, 30000000)
